@@ -955,7 +955,10 @@ Section SumProofs.
       assert (HkD : (Z.abs (Z.of_nat (length mds) * link_delta l) <= Z.of_nat (length mds) * link_abs l)%Z).
       { rewrite Z.abs_mul, Z.abs_eq by lia. apply Z.mul_le_mono_nonneg_l; lia. }
       destruct mds as [|md mds'].
-      + inversion H; subst. rewrite Z.add_0_r in *. eapply eval_link_counter; [exact Hl | exact E | exact Hz | exact Hb].
+      + inversion H; subst.
+        replace (z + (Z.of_nat (length (@nil mdata)) * link_delta l + 0))%Z
+          with (z + Z.of_nat (length (@nil mdata)) * link_delta l)%Z by lia.
+        eapply eval_link_counter; [exact Hl | exact E | exact Hz | unfold inb in *; lia].
       + destruct (eval_chain op_eval e r (S lvl) s1) as [s2 rest] eqn:E2. inversion H; subst.
         pose proof (chain_sum_abs_nonneg e r (S lvl) s1) as Hnn.
         rewrite Z.add_assoc. eapply IH; [exact Hr | exact E2 | | unfold inb in *; lia].
@@ -1108,3 +1111,169 @@ Section SumProofs.
     tx_counter (s_tx (eval_tx op_eval e rs s)) c = Some (z + tx_sum link_delta e rs s)%Z.
   Proof. intros Hok Hz Hb. unfold eval_tx, tx_sum in *. apply phases_counter; assumption. Qed.
 End SumProofs.
+
+(* ------------------------------------------------------------------------------------ *)
+(* C09_highest_severity_min                                                             *)
+(* ------------------------------------------------------------------------------------ *)
+Definition hm (s : st) : bytes * list mrule := (s_hs s, s_matched s).
+Definition sev_ok (sv : option Z) : bool :=
+  match sv with Some v => (- two63 <=? v)%Z && (v <? two63)%Z | None => true end.
+(* minimum of h and the severities that are set among the matched rules *)
+Definition fold_min (h : Z) (ms : list mrule) : Z :=
+  fold_right (fun m acc => match mr_sev m with Some v => Z.min v acc | None => acc end) h ms.
+Definition hs_inv (h0 : Z) (s : st) : Prop :=
+  s_hs s = z_itoa (fold_min h0 (s_matched s)) /\ (- two63 <= fold_min h0 (s_matched s) < two63)%Z.
+
+Section SeverityProofs.
+  Variable opid : Type.
+  Variable op_eval : opid -> env -> st -> bytes -> bool * list (N * bytes).
+
+  Lemma run_nd_hm e rid lvl acts idx s : hm (run_nd e rid lvl idx acts s) = hm s.
+  Proof.
+    destruct (run_nd_fields e rid lvl acts idx s) as (_ & _ & H1 & H2 & _). unfold hm. cbn zeta in *. rewrite H1, H2. reflexivity.
+  Qed.
+
+  Lemma on_match_hm e (l : link opid) lvl known vn key value s : hm (on_match e l lvl known vn key value s) = hm s.
+  Proof. unfold on_match. rewrite run_nd_hm. destruct known; reflexivity. Qed.
+
+  Lemma apply_caps_hm caps s : hm (apply_caps caps s) = hm s.
+  Proof. unfold apply_caps. destruct (s_capture s); reflexivity. Qed.
+
+  Lemma eval_cands_hm e (l : link opid) lvl o neg : forall cands s acc s' acc',
+    eval_cands op_eval e l lvl o neg cands s acc = (s', acc') -> hm s' = hm s.
+  Proof.
+    induction cands as [|[[vn key] carg] r IH]; intros s acc s' acc' H; cbn [eval_cands] in H.
+    - inversion H; reflexivity.
+    - destruct (op_eval o e s carg) as [res caps]. destruct (xorb res neg).
+      + apply IH in H. rewrite H, on_match_hm, apply_caps_hm. reflexivity.
+      + apply IH in H. rewrite H, apply_caps_hm. reflexivity.
+  Qed.
+
+  Lemma eval_targets_hm e (l : link opid) lvl o neg : forall ts s acc s' acc',
+    eval_targets op_eval e l lvl o neg ts s acc = (s', acc') -> hm s' = hm s.
+  Proof.
+    induction ts as [|t r IH]; intros s acc s' acc' H; cbn [eval_targets] in H.
+    - inversion H; reflexivity.
+    - destruct (eval_cands op_eval e l lvl o neg (target_cands e l s t) s acc) as [s1 acc1] eqn:E.
+      apply eval_cands_hm in E. apply IH in H. congruence.
+  Qed.
+
+  Lemma link_prologue_hm e (l : link opid) s : hm (link_prologue e l s) = hm s.
+  Proof. unfold link_prologue. destruct (l_msg l), (l_logdata l); reflexivity. Qed.
+
+  Lemma eval_link_hm e (l : link opid) lvl s s' mds : eval_link op_eval e l lvl s = (s', mds) -> hm s' = hm s.
+  Proof.
+    unfold eval_link. intro H. cbv zeta in H. destruct (l_op l) as [[[ts o] neg]|].
+    - destruct (eval_targets op_eval e l lvl o neg ts (link_prologue e l s) []) as [s1 acc] eqn:E.
+      apply eval_targets_hm in E. inversion H; subst. rewrite E. apply link_prologue_hm.
+    - pose proof (on_match_hm e l lvl false (var_name VUnknown) [] [] (link_prologue e l s)) as Ho.
+      injection H as Hs Hm. subst s'. etransitivity; [exact Ho|]. apply link_prologue_hm.
+  Qed.
+
+  Lemma eval_chain_hm e : forall links lvl s s' res, eval_chain op_eval e links lvl s = (s', res) -> hm s' = hm s.
+  Proof.
+    induction links as [|l r IH]; intros lvl s s' res H; cbn [eval_chain] in H.
+    - inversion H; reflexivity.
+    - destruct (eval_link op_eval e l lvl s) as [s1 mds] eqn:E. apply eval_link_hm in E.
+      destruct mds; [inversion H; subst; exact E|].
+      destruct (eval_chain op_eval e r (S lvl) s1) as [s2 rest] eqn:E2. apply IH in E2. inversion H; subst. congruence.
+  Qed.
+
+  Lemma match_rule_inv h0 (l : link opid) mds s :
+    sev_ok (l_sev l) = true -> hs_inv h0 s -> hs_inv h0 (match_rule l mds s).
+  Proof.
+    intros Hs [Hh Hr]. unfold hs_inv, match_rule. destruct (first_msg mds) as [m d]. cbn [s_hs s_matched st_log fold_min fold_right mr_sev].
+    fold (fold_min h0 (s_matched s)). destruct (l_sev l) as [sv|]; [|split; assumption].
+    unfold sev_ok in Hs. apply andb_true_iff in Hs as [H1 H2]. apply Z.leb_le in H1. apply Z.ltb_lt in H2.
+    rewrite Hh, (atoi_z_itoa _ Hr). cbn [atoi_val].
+    destruct (sv <? fold_min h0 (s_matched s))%Z eqn:E.
+    - apply Z.ltb_lt in E. rewrite Z.min_l by lia. split; [reflexivity | lia].
+    - apply Z.ltb_ge in E. rewrite Z.min_r by lia. split; [reflexivity | exact Hr].
+  Qed.
+
+  Lemma hs_inv_hm h0 s s' : hm s' = hm s -> hs_inv h0 s -> hs_inv h0 s'.
+  Proof. unfold hm, hs_inv. intro H. inversion H as [[H1 H2]]. rewrite H1, H2. tauto. Qed.
+
+  Lemma eval_rule_inv h0 e (r : rule opid) s :
+    sev_ok (l_sev (r_head r)) = true -> hs_inv h0 s -> hs_inv h0 (eval_rule op_eval e r s).
+  Proof.
+    intros Hs Hi. unfold eval_rule.
+    destruct (eval_chain op_eval e (r_head r :: r_chain r) 0 s) as [s2 res] eqn:E. apply eval_chain_hm in E.
+    pose proof (hs_inv_hm h0 s s2 E Hi) as Hi2. destruct res as [all|]; [|exact Hi2].
+    destruct (run_flow_disr_ext (link_rid (r_head r)) (l_actions (r_head r)) s2) as (n & _ & _ & _ & _ & Hh & Hm).
+    assert (Hi3 : hs_inv h0 (run_flow_disr (link_rid (r_head r)) (l_actions (r_head r)) s2)).
+    { apply (hs_inv_hm h0 s2); [unfold hm; rewrite Hh, Hm; reflexivity | exact Hi2]. }
+    destruct (l_id (r_head r) =? 0)%Z; [exact Hi3|]. apply match_rule_inv; assumption.
+  Qed.
+
+  Definition rules_sev_ok (rs : list (rule opid)) : bool := forallb (fun r => sev_ok (l_sev (r_head r))) rs.
+
+  Lemma eval_rules_inv h0 e phase : forall rs s,
+    rules_sev_ok rs = true -> hs_inv h0 s -> hs_inv h0 (eval_rules op_eval e phase rs s).
+  Proof.
+    induction rs as [|r rest IH]; intros s Hok Hi; cbn [eval_rules]; [exact Hi|].
+    cbn [rules_sev_ok forallb] in Hok. apply andb_true_iff in Hok as [Hr Hrest].
+    assert (Hstep : hs_inv h0 (eval_rules op_eval e phase rest (st_with_capture (eval_rule op_eval e r (st_reset_mvs s)) false))).
+    { apply IH; [exact Hrest|]. apply (hs_inv_hm h0 (eval_rule op_eval e r (st_reset_mvs s))); [reflexivity|].
+      apply eval_rule_inv; [exact Hr|]. apply (hs_inv_hm h0 s); [reflexivity | exact Hi]. }
+    destruct (s_interrupted s), (negb (phase =? 5)); try exact Hi;
+      (destruct (r_phase r =? phase); [exact Hstep | apply IH; assumption]).
+  Qed.
+
+  (* C09_highest_severity_min *)
+  Theorem highest_severity_min h0 e rs s :
+    rules_sev_ok rs = true -> hs_inv h0 s -> hs_inv h0 (eval_tx op_eval e rs s).
+  Proof.
+    intros Hok Hi. unfold eval_tx. generalize [1; 2; 3; 4; 5]. intro ps. revert s Hi.
+    induction ps as [|p r IH]; intros s Hi; cbn [fold_left]; [exact Hi|].
+    apply IH. unfold eval_phase. destruct (s_interrupted s), (negb (p =? 5)); try exact Hi; apply eval_rules_inv; assumption.
+  Qed.
+
+  Corollary highest_severity_min_init e rs :
+    rules_sev_ok rs = true ->
+    s_hs (eval_tx op_eval e rs st_init) = z_itoa (fold_min 255 (s_matched (eval_tx op_eval e rs st_init))).
+  Proof.
+    intro Hok. apply (highest_severity_min 255 e rs st_init Hok). split; [reflexivity | cbn; unfold two63; lia].
+  Qed.
+End SeverityProofs.
+
+(* ------------------------------------------------------------------------------------ *)
+(* the counting form of the trace theorems                                              *)
+(* ------------------------------------------------------------------------------------ *)
+Lemma once_per_match_link opid op_eval e (l : link opid) lvl s s' mds :
+  eval_link op_eval e l lvl s = (s', mds) ->
+  exists new, s_trace s' = new ++ s_trace s /\
+    forall i a, nth_error (l_actions l) i = Some a -> is_nd a = true ->
+                count_tag (lvl, i) (act_tags new) = length mds.
+Proof.
+  intro H. destruct (eval_link_ext opid op_eval e l lvl s s' mds H) as (n & He & Ht & _).
+  exists n. split; [exact He|]. intros i a Hi Ha.
+  rewrite Ht, count_tag_concat_repeat, (count_link_tags l lvl i a Hi Ha). lia.
+Qed.
+
+Lemma once_per_match_rule opid op_eval e (r : rule opid) s :
+  exists new, s_trace (eval_rule op_eval e r s) = new ++ s_trace s /\
+    (forall k l i a, nth_error (rule_links opid r) k = Some l -> nth_error (l_actions l) i = Some a -> is_nd a = true ->
+       count_tag (k, i) (act_tags new) = nth k (rule_counts opid op_eval e r s) 0%nat) /\
+    fd_events new =
+      if chain_complete opid (rule_links opid r) (rule_counts opid op_eval e r s)
+      then (if (l_id (r_head r) =? 0)%Z then [] else [EvRuleMatched (l_id (r_head r))]) ++ rev (fd_names (l_actions (r_head r)))
+      else [].
+Proof.
+  destruct (eval_rule_ext opid op_eval e r s) as (n & He & Ht & Hf). exists n. split; [exact He|]. split; [|exact Hf].
+  intros k l i a Hk Hi Ha. rewrite Ht.
+  exact (chain_tags_count opid (rule_links opid r) 0 (rule_counts opid op_eval e r s) k l i a Hk Hi Ha).
+Qed.
+
+(* the guard of C09_sum is satisfiable by the rule shapes of anomaly scoring *)
+Example sum_guard_nontrivial :
+  let c := str "score" in
+  match setvar_init (str "tx.score=+5"), setvar_init (str "tx.cnt_%{MATCHED_VAR_NAME}=+1"),
+        setvar_init (str "tx.score=-2"), setvar_init (str "tx.last=%{MATCHED_VAR}") with
+  | Some a1, Some a2, Some a3, Some a4 =>
+      acts_ok c [ANd (str "log"); ASetvar a1; ASetvar a2; ASetvar a3; ASetvar a4; ADisr (str "pass") false] = true /\
+      acts_delta c [ASetvar a1; ASetvar a2; ASetvar a3; ASetvar a4] = 3%Z /\
+      acts_abs c [ASetvar a1; ASetvar a2; ASetvar a3; ASetvar a4] = 7%Z
+  | _, _, _, _ => False
+  end.
+Proof. vm_compute. repeat split. Qed.
